@@ -94,8 +94,9 @@ def theorems_of(prop_id):
     return re.findall(r"^theorem\s+([A-Za-z0-9_'.]+)", code, flags=re.M)
 
 
-def lean_status(prop_id):
-    """build everything, audit the property's theorems. Returns dict."""
+def lean_status(prop_id, tier="quick"):
+    """build everything, audit the property's theorems (thorough tier: also re-check the compiled property module and
+    everything it imports with `leanchecker`, Lean's independent checker of .olean files). Returns dict."""
     t0 = time.time()
     st = {"build_ok": False, "theorems": [], "axioms": {}, "bad_axioms": {}, "forbidden": [], "log": ""}
     r = subprocess.run(["lake", "build"], cwd=LEAN_DIR, capture_output=True, text=True)
@@ -125,6 +126,12 @@ def lean_status(prop_id):
         if missing or a.returncode != 0:
             st["build_ok"] = False
             st["log"] += "\nAUDIT: " + out[-2000:]
+    if tier == "thorough" and st["build_ok"]:
+        c = subprocess.run(["lake", "env", "leanchecker", f"Props.{prop_id}"], cwd=LEAN_DIR, capture_output=True, text=True)
+        st["leanchecker"] = "ok" if c.returncode == 0 else "FAILED"
+        if c.returncode != 0:
+            st["build_ok"] = False
+            st["log"] += "\nLEANCHECKER: " + (c.stdout + c.stderr)[-2000:]
     st["wall"] = time.time() - t0
     st["ok"] = bool(st["build_ok"] and not st["forbidden"] and not st["bad_axioms"] and ths)
     return st
@@ -351,6 +358,7 @@ def finish(run: Run, lean, level_text, rule, assumptions, extra_cov=None, search
         "numerically_ambiguous": run.numerically_ambiguous,
         "notes": run.notes,
         "lean_wall_s": round(lean.get("wall", 0), 1),
+        "leanchecker": lean.get("leanchecker", "not run (thorough tier only)"),
     }
     if proto.SEC_STATUS:
         # end-to-end RUN lines: how the model obtained each secondary peak list (derived = computed by the model's own
